@@ -395,10 +395,12 @@ def _get_expression_leaves(expression: exp.Expr) -> Iterator[exp.Expr]:
 
 def _get_non_expression_leaves(expression: exp.Expr) -> Iterator[tuple[str, t.Any]]:
     for arg, value in expression.args.items():
+        # None, False and empty lists are "no value" for Expr.__eq__ / __hash__ as well
         if (
             value is None
+            or value is False
             or isinstance(value, exp.Expr)
-            or (isinstance(value, list) and isinstance(seq_get(value, 0), exp.Expr))
+            or (isinstance(value, list) and (not value or isinstance(value[0], exp.Expr)))
         ):
             continue
 
